@@ -104,6 +104,16 @@ def validate(kernels):
         for n in range(1, 9):
             t = HashTable(list(range(n)), 0)
             add({"kernel": "ht_mod", "n": n}, int(t._mod), "ht_hash")
+    if "bit_addr" in kernels:
+        from npstructures.bitarray import BitArray
+        for b in (1, 2, 4, 8, 16, 32):
+            n = 64 // b + 3
+            vals = (np.arange(n) * 5 + 1) % (2 ** min(b, 16))
+            ba = BitArray.pack(vals.astype(np.uint64), b)
+            for idx in range(n):
+                # the real method's value, reproduced from the generated (register, position) pair on the real registers
+                add({"kernel": "bit_addr", "off": int(ba._offset), "npr": int(ba._n_entries_per_register), "idx": idx},
+                    ("bit", ba, idx), "bit_addr")
     # expand groups
     flat, index = [], []
     for r in reqs:
@@ -121,6 +131,13 @@ def validate(kernels):
             model = None if any(isinstance(x, dict) for x in g) else g
             if model != e:
                 bad.append({"kernel": tag, "request": r["rows"][:2], "generated": model, "real": e})
+        elif tag == "bit_addr":
+            _, ba, idx = e
+            ri, ro = g[0]
+            val = (int(ba._data[ri]) >> (ro * int(ba._bit_stride))) & int(ba._mask) if 0 <= ri < len(ba._data) else None
+            real = int(ba[idx])
+            if val != real:
+                bad.append({"kernel": tag, "request": r, "generated": [ri, ro, val], "real": real})
         elif tag == "rl_slice_bounds":
             x = g[0]
             if e == "empty":
